@@ -668,6 +668,46 @@ int __wrap_open(const char* path, int flags, ...) {
   return fd;
 }
 
+FILE* __real_fopen(const char*, const char*);
+
+// fopen() of a path under /sim/ yields a stdio stream over the simulated file (same fault plan as
+// descriptors); this is how Image(filename) / Image::save(filename) reach the simulated disk.
+FILE* __wrap_fopen(const char* path, const char* mode) {
+  if (!is_sim_path(path)) return __real_fopen(path, mode);
+  vsim::Quiet quiet;
+  World& w = g_world;
+  w.calls.opens++;
+  std::string p(path);
+  auto n = lookup(p);
+  bool writing = mode[0] == 'w' || mode[0] == 'a';
+  if (!n) {
+    if (!writing) {
+      w.calls.natural_errors++;
+      errno = ENOENT;
+      vsim::ev("fopen.ENOENT");
+      return nullptr;
+    }
+    std::string leaf;
+    auto parent = lookup_parent(p, leaf);
+    if (!parent) {
+      w.calls.natural_errors++;
+      errno = ENOENT;
+      return nullptr;
+    }
+    n = std::make_shared<Inode>();
+    n->kind = Kind::REG;
+    parent->entries[leaf] = n;
+  }
+  if (n->kind == Kind::DIR) {
+    errno = EISDIR;
+    return nullptr;
+  }
+  char m[4] = {mode[0], 0, 0, 0};
+  if (strchr(mode, '+')) m[1] = '+';
+  vsim::ev("fopen", writing);
+  return fopen_inode(n, m, nullptr, true);
+}
+
 int __wrap_close(int fd) {
   if (fd == URANDOM_FD) return 0;
   if (!is_virtual(fd)) return __real_close(fd);
